@@ -606,6 +606,66 @@ func insertUnknownBlocks(r *RNG, text string) string {
 	return strings.Join(lines, "\n") + "\n"
 }
 
+// repointsBetweenTwins: created = the state after the first run holds two network groups with the same member set of
+// which at least one did not exist before; rep = every command of the second script is an access-list line added or
+// deleted, and the added and the deleted bodies of each access list are the same multiset once every twin name is
+// replaced by one representative.
+func repointsBetweenTwins(before, after *asaDev, script string) (rep, created bool) {
+	canonOf := map[string]string{}
+	byMembers := map[string]string{}
+	for _, g := range after.GOrder {
+		m := append([]string{}, after.Groups[g]...)
+		sort.Strings(m)
+		k := strings.Join(m, ",")
+		if first, ok := byMembers[k]; ok {
+			canonOf[g] = first
+			_, old1 := before.Groups[g]
+			_, old2 := before.Groups[first]
+			if !old1 || !old2 {
+				created = true
+			}
+		} else {
+			byMembers[k] = g
+			canonOf[g] = g
+		}
+	}
+	if !created {
+		return false, false
+	}
+	norm := func(body string) string {
+		w := strings.Fields(canonBody(body))
+		for i := 1; i < len(w); i++ {
+			if w[i-1] == "object-group" {
+				if c, ok := canonOf[w[i]]; ok {
+					w[i] = c
+				}
+			}
+		}
+		return strings.Join(w, " ")
+	}
+	bal := map[string]int{}
+	for _, line := range strings.Split(strings.TrimSpace(script), "\n") {
+		for _, h := range strings.Split(line, "\\N ") {
+			m := aclCmdRE.FindStringSubmatch(h)
+			if m == nil {
+				return false, true
+			}
+			k := m[2] + "|" + norm(m[4])
+			if m[1] != "" {
+				bal[k]--
+			} else {
+				bal[k]++
+			}
+		}
+	}
+	for _, v := range bal {
+		if v != 0 {
+			return false, true
+		}
+	}
+	return true, true
+}
+
 // groupRefCount: number of access-list lines of the configuration that reference the object-group.
 func groupRefCount(d *asaDev, g string) int {
 	n := 0
@@ -988,7 +1048,14 @@ func run(ctx *Ctx) *Result {
 			if pan2 != "" || st2 != 0 {
 				res.Fail(sig("second_compare_failed"), fmt.Sprintf("second compare: exit %d %s", st2, pan2), c)
 			} else if strings.TrimSpace(out2) != "" {
-				res.Fail(sig("second_compare_not_empty"), "second compare reports changes:\n"+out2, c)
+				sg := sig("second_compare_not_empty")
+				// twin groups: the first run created a group with exactly the members of a group that was on the device
+				// before (and stays referenced); is the second script nothing but lines re-pointed from one twin to the other?
+				if rep, created := repointsBetweenTwins(c.dev, final, out2); created {
+					sg["twin_group_created_by_first_run"] = true
+					sg["second_script_only_repoints_lines_between_twin_groups"] = rep
+				}
+				res.Fail(sg, "second compare reports changes:\n"+out2, c)
 			}
 			if len(cmds) == 0 && c.dev.managedView(c.Bindings, c.Routes, c.Routes6) != wantView {
 				res.Fail(sig("unchanged_reported_for_different_device"), "empty script although the device is not equivalent", c)
